@@ -21,6 +21,8 @@ import (
 	"github.com/platinummonkey/go-concurrency-limits/patterns/pool"
 	"github.com/platinummonkey/go-concurrency-limits/strategy"
 	"github.com/platinummonkey/go-concurrency-limits/strategy/matchers"
+
+	"verifharness/kit"
 )
 
 // ---------------------------------------------------------------------------------------------
@@ -477,9 +479,13 @@ type vtWorld struct {
 	wg      sync.WaitGroup
 	holders atomic.Int64 // tokens held right now as the callers themselves see it
 	maxHeld atomic.Int64
+
+	baseGoroutines int // runtime.NumGoroutine() when the world was created (inside the bubble)
 }
 
-func newWorld(st *stack, t0 time.Time) *vtWorld { return &vtWorld{t0: t0, st: st} }
+func newWorld(st *stack, t0 time.Time) *vtWorld {
+	return &vtWorld{t0: t0, st: st, baseGoroutines: runtime.NumGoroutine()}
+}
 
 func (w *vtWorld) now() time.Duration { return time.Since(w.t0) }
 
@@ -641,6 +647,17 @@ func (w *vtWorld) unwind(maxWait time.Duration) string {
 // flush pushes one extra acquire+complete through the outer limiter: this broadcasts to helper
 // goroutines that blockUntilSignaled leaves parked on the condition after a time-out.
 func (w *vtWorld) flush() {
+	// repeat while goroutines other than the bubble's root remain (each round can release helpers
+	// parked on the condition of a blocking limiter)
+	for i := 0; i < 300; i++ {
+		w.flushOnce()
+		if runtime.NumGoroutine() <= w.baseGoroutines {
+			return
+		}
+	}
+}
+
+func (w *vtWorld) flushOnce() {
 	defer func() {
 		if wk, ok := w.st.lim.(interface{ VerifWake() }); ok {
 			wk.VerifWake()
@@ -663,6 +680,16 @@ func (w *vtWorld) flush() {
 
 // bubble runs f inside a synctest bubble and returns its outcome. Harness panics are converted.
 func bubble[T any](t *testing.T, f func() T) (out T) {
+	defer func() {
+		// "deadlock: main bubble goroutine has exited but blocked goroutines remain": goroutines the
+		// case could not unwind. The outcome computed by f (if any) stands; with no outcome this is a
+		// harness problem (inconclusive), never a violation by itself.
+		if r := recover(); r != nil {
+			if o, ok := any(&out).(*kit.Outcome); ok && o.Violation == "" && o.Harness == "" {
+				o.Harness = fmt.Sprintf("bubble could not end: %v", r)
+			}
+		}
+	}()
 	synctest.Test(t, func(*testing.T) {
 		out = f()
 	})
